@@ -371,10 +371,7 @@ func init() {
 
 	// strconv floats: concrete only
 	ext["strconv.ParseFloat"] = func(fr *frame, args []value) value {
-		s, ok := args[0].(string)
-		if !ok {
-			unsupported("strconv.ParseFloat on symbolic text")
-		}
+		s := fr.i.concreteString(args[0])
 		f, err := strconv.ParseFloat(s, args[1].(int))
 		if err != nil {
 			return tuple{f, fr.i.newError(err.Error())}
